@@ -13,10 +13,15 @@ mod o_globals;
 mod o_rename;
 mod o_reader;
 mod o_parsers;
+mod o_arith;
 
 use std::panic;
 
 pub type Check = fn(&str) -> Result<(), String>;
+
+/// cases an oracle skipped because they are outside the property's claim (e.g. integer overflow)
+pub static SKIPPED: std::sync::atomic::AtomicUsize = std::sync::atomic::AtomicUsize::new(0);
+pub fn skip() { SKIPPED.fetch_add(1, std::sync::atomic::Ordering::Relaxed); }
 pub type Enumerate = fn(u64) -> Vec<String>;
 
 fn oracles() -> Vec<(&'static str, Enumerate, Check)> {
@@ -35,6 +40,7 @@ fn oracles() -> Vec<(&'static str, Enumerate, Check)> {
         ("c10_rename", o_rename::enum_rename, o_rename::check_rename),
         ("c21_load", o_reader::enum_load, o_reader::check_load),
         ("c18_parsers", o_parsers::enum_strings, o_parsers::check_string),
+        ("c12_arith", o_arith::enum_arith, o_arith::check_arith),
         ("c06_keeps", o_unify::enum_keeps, o_unify::check_keeps),
     ]
 }
@@ -87,6 +93,9 @@ fn main() {
     }
     let mut cases = en(seed);
     if let Some(f) = &filter { cases.retain(|c| c.starts_with(f.as_str())); }
+    let generated = cases.len();
+    cases.sort();
+    cases.dedup();
     let mut fails = 0;
     let mut shown = 0;
     for c in &cases {
@@ -99,6 +108,8 @@ fn main() {
             if !all { break; }
         }
     }
-    println!("{{\"oracle\":{},\"cases\":{},\"failures\":{}}}", jstr(name), cases.len(), fails);
+    let skipped = SKIPPED.load(std::sync::atomic::Ordering::Relaxed);
+    println!("{{\"oracle\":{},\"generated\":{},\"cases\":{},\"skipped_outside_claim\":{},\"failures\":{},\"sample\":{}}}",
+             jstr(name), generated, cases.len(), skipped, fails, jstr(cases.get(cases.len() / 2).map(|s| s.as_str()).unwrap_or("")));
     std::process::exit(if fails > 0 { 1 } else { 0 });
 }
